@@ -402,3 +402,62 @@ Proof.
   intros f fuel H. unfold check_func in H. destruct (infer f fuel) as [ann|v]; [|destruct v; discriminate].
   destruct (check_ann f ann) eqn:E; try discriminate. eapply check_ann_sound; eauto.
 Qed.
+
+(* ---- error edges ----------------------------------------------------------------------------- *)
+Lemma steps_trans : forall f a b c, steps f a b -> steps f b c -> steps f a c.
+Proof.
+  intros f a b c H1 H2. induction H2; [exact H1|]. eapply steps_step; [apply IHsteps; exact H1 | eassumption].
+Qed.
+
+(* c1 stands at an error check `if is_error(v)` whose value IS the error value; c2 is the entry of the error target *)
+Definition error_edge (f : func) (v : val) (c1 c2 : config) : Prop :=
+  exists neg lt lf s u b,
+    c1 = Cfg [] (TBranch BIsError (Some v) neg lt lf) s /\ s v = CNull u /\
+    PositiveMap.find (if neg then lf else lt) (fblocks f) = Some b /\
+    c2 = Cfg (bops b) (bterm b) s.
+
+Definition at_return (c : config) : Prop := crest c = [] /\ is_return (cterm_ c) = true.
+
+Lemma error_edge_step : forall f v c1 c2, error_edge f v c1 c2 -> step f c1 c2.
+Proof.
+  intros f v c1 c2 [neg [lt [lf [s [u [b [E1 [Ev [Hb E2]]]]]]]]]. subst.
+  eapply step_jump with (ch := true) (l := if neg then lf else lt); [simpl; rewrite Ev; reflexivity | exact Hb].
+Qed.
+
+Lemma not_violates_leak_free : forall f c, ~ violates f c -> at_return c ->
+  leak_free (cterm_final (cterm_ c) (cst c)).
+Proof.
+  intros f c NV [Hr Ht] v. destruct (Nat.eq_dec (owned (cterm_final (cterm_ c) (cst c) v)) 0) as [E|E]; auto.
+  exfalso. apply NV. unfold violates. rewrite Hr. right. right. split; [exact Ht | intro LF; apply E; apply LF].
+Qed.
+
+(* On the error edge of a failing op the result holds nothing (it is the error value, untouched by the branch),
+   the edge itself is a legal step, and WHATEVER the function still owns at that point is released exactly once on
+   every continuation: no continuation violates (no double release, no dec_ref of the NULL result, ...) and every
+   Return reached afterwards finds nothing owned. *)
+Theorem error_edge_sound : forall f fuel, check_func f fuel = Accept ->
+  forall c0 c1 c2 v, initial_config f c0 -> steps f c0 c1 -> error_edge f v c1 c2 ->
+    step f c1 c2 /\ owned (cst c2 v) = 0 /\ cst c2 = cst c1 /\
+    forall c3, steps f c2 c3 ->
+      ~ violates f c3 /\ (at_return c3 -> leak_free (cterm_final (cterm_ c3) (cst c3))).
+Proof.
+  intros f fuel H c0 c1 c2 v I S01 EE.
+  pose proof (error_edge_step _ _ _ _ EE) as ST.
+  destruct EE as [neg [lt [lf [s [u [b [E1 [Ev [Hb E2]]]]]]]]]. subst. simpl.
+  split; [exact ST|]. split; [rewrite Ev; reflexivity|]. split; [reflexivity|].
+  intros c3 S23.
+  assert (NV : ~ violates f c3).
+  { eapply check_func_sound; eauto. eapply steps_trans; [|exact S23]. eapply steps_step; eauto. }
+  split; auto. intro AR. eapply not_violates_leak_free; eauto.
+Qed.
+
+(* every operand read that is ever reached finds a usable value: in particular never a pointer whose owner
+   gave up its last reference (CObj 0 BNone), never uninitialised memory, never an undefined local *)
+Theorem reads_are_valid : forall f fuel, check_func f fuel = Accept ->
+  forall c0 c v ms, initial_config f c0 -> steps f c0 c -> crest c = MRead v :: ms ->
+    readable (cst c v) = true /\ cst c v <> CObj 0 BNone /\ cst c v <> CUninit /\ cst c v <> CNull true.
+Proof.
+  intros f fuel H c0 c v ms I S Hc. destruct (readable (cst c v)) eqn:E.
+  - split; [reflexivity|]. repeat split; intro X; rewrite X in E; discriminate.
+  - exfalso. eapply check_func_sound; eauto. unfold violates. rewrite Hc. exists true. simpl. rewrite E. reflexivity.
+Qed.
